@@ -126,6 +126,24 @@ def run(ctx, R):
             n_g += 1
             R.ob("C30:" + k[4:], ok, d, w)
     R.floor("grow obligations", n_g, 3)
+    # ---- "after recovery, later goals compute correct results": the copier overwrites cells of the SOURCE term with
+    # forwarding pointers while it works and puts them back in unwind_trail; an allocation failure half-way must not
+    # return before that (RF3 must-pass-through over the MIR CFG of copier::copy_term)
+    from .core import CFG, callee_of
+    ct = F.find("copier::copy_term")
+    cfg = CFG(F.mir(ct))
+    marking = cfg.call_blocks(lambda t: re.search(r"CopyTermState::<.*>::(copy_term_impl|copy_attr_var_lists)$", callee_of(t)))
+    undo = set(cfg.call_blocks(lambda t: re.search(r"CopyTermState::<.*>::unwind_trail$", callee_of(t))))
+    if not marking or not undo:
+        raise AnchorLost("copier::copy_term no longer calls copy_term_impl/copy_attr_var_lists and unwind_trail (found %d/%d)" % (len(marking), len(undo)))
+    R.floor("copier phases that mark the source term", len(marking), 2)
+    for b in marking:
+        name = callee_of(cfg.blocks[b]["t"]).rsplit("::", 1)[-1]
+        ok, wit = cfg.must_pass(b, undo)
+        R.ob("C30:copier:source-restored-on-every-exit-after:%s" % name, ok,
+             "copy_term can return (bb%s) after %s without passing through unwind_trail: when the copy runs out of memory the forwarding "
+             "pointers stay in the source term, so after catch/3 has handled resource_error(memory) the original term is corrupt" % (wit, name), F.where(ct))
+    # the phases that mark must themselves leave by `?`/return only (no swallowing): covered by the consumer rule above
     # ---- RF4: resource errors are thrown in one place, from the pre-allocated term ---------------------------------
     tr = F.find_impl("MachineState", None, "throw_resource_error")
     th = F.hir(tr)
